@@ -52,6 +52,11 @@ def build_ws(vw, n):
     open(os.path.join(d, "dups.go"), "w").write("package mix\n\nimport \"regexp\"\n\nvar (\n\t_ = regexp.MustCompile(`[aa]x[aa]`)\n\t_ = regexp.MustCompile(`(?i)x(?i)y(?i)`)\n"
                                                 "\t_ = regexp.MustCompile(`a^b|c^d`)\n\t_ = regexp.MustCompile(`[a-z0-9a-z]+[a-z0-9a-z]`)\n\t_ = regexp.MustCompile(`[0-90-9][0-90-9]`)\n)\n\n"
                                                 "func dupArgs(a, b []int) {\n\tcopy(a, a); copy(a, a)\n\t_ = a[:][:]\n}\n")
+    # a non-test file whose diagnostics depend on the in-package test files (a method added by export_test.go
+    # makes the type an io.StringWriter in the test variant only): every front-end must look at the same variant
+    open(os.path.join(d, "variant.go"), "w").write("package mix\n\ntype vbuf struct{ data []byte }\n\nfunc (b *vbuf) Write(p []byte) (int, error) {\n\tb.data = append(b.data, p...)\n\treturn len(p), nil\n}\n\n"
+                                                   "func emit(b *vbuf, s string) {\n\tb.Write([]byte(s))\n}\n\ntype vkind interface{ kind() int }\n\nfunc classify(x interface{}) int {\n\tswitch x.(type) {\n\tcase vkind:\n\t\treturn 1\n\tcase *vbuf:\n\t\treturn 2\n\t}\n\treturn 0\n}\n")
+    open(os.path.join(d, "export_test.go"), "w").write("package mix\n\nfunc (b *vbuf) WriteString(s string) (int, error) { return b.Write([]byte(s)) }\n\nfunc (b *vbuf) kind() int { return 7 }\n")
     open(os.path.join(d, "cmdmain", "main.go"), "w").write("package main\n\nfunc main() {}\n\n" + body % "g")
     return ws, pats + ["./mix", "./mix/cmdmain"]
 
